@@ -676,8 +676,58 @@ func runC31(c *Ctx) {
 				return be.Op == token.NEQ && ((g.Prov(be.X) == "param#0" && g.Prov(be.Y) == "recv.Subject") || (g.Prov(be.Y) == "param#0" && g.Prov(be.X) == "recv.Subject"))
 			})},
 			factReq{"not expired", func(g *Fn, fs *FactSet) bool {
+				// the test "the stamp has an expiry and it lies in the past" is known false;
+				// the past-test in any of its spellings: ExpiresAt.Sub(now) < 0,
+				// time.Until(ExpiresAt) < 0, now.After(ExpiresAt), ExpiresAt.Before(now),
+				// time.Since(ExpiresAt) > 0
+				isExp := func(e ast.Expr) bool { return g.Prov(e) == "recv.ExpiresAt" }
+				isNow := func(e ast.Expr) bool {
+					call, ok := ast.Unparen(e).(*ast.CallExpr)
+					return ok && g.IsCall(call, "time.Now")
+				}
+				inPast := func(e ast.Expr) bool {
+					e = ast.Unparen(e)
+					if call, ok := e.(*ast.CallExpr); ok {
+						if se, ok := call.Fun.(*ast.SelectorExpr); ok && len(call.Args) == 1 {
+							switch {
+							case g.IsCall(call, "time.Time.After") && isNow(se.X) && isExp(call.Args[0]):
+								return true
+							case g.IsCall(call, "time.Time.Before") && isExp(se.X) && isNow(call.Args[0]):
+								return true
+							}
+						}
+						return false
+					}
+					be, ok := e.(*ast.BinaryExpr)
+					if !ok {
+						return false
+					}
+					v, _ := g.ConstVal(be.Y)
+					call, isCall := ast.Unparen(be.X).(*ast.CallExpr)
+					if v != "0" || !isCall || len(call.Args) != 1 {
+						return false
+					}
+					switch {
+					case be.Op == token.LSS && g.IsCall(call, "time.Until") && isExp(call.Args[0]):
+						return true
+					case be.Op == token.GTR && g.IsCall(call, "time.Since") && isExp(call.Args[0]):
+						return true
+					case be.Op == token.LSS && g.IsCall(call, "time.Time.Sub"):
+						se := call.Fun.(*ast.SelectorExpr)
+						return isExp(se.X) && isNow(call.Args[0])
+					}
+					return false
+				}
 				return fs.Cmp(func(e, tag ast.Expr, truth bool, fa *Fact) bool {
-					return !truth && strings.Contains(types_ExprString(e), "ExpiresAt.Sub") && strings.Contains(types_ExprString(e), "IsZero")
+					if truth || tag != nil {
+						return false
+					}
+					for _, cj := range conjuncts(e) {
+						if inPast(cj) {
+							return true // (possibly guarded by !ExpiresAt.IsZero())
+						}
+					}
+					return false
 				})
 			}},
 			factReq{"verifyBits", func(g *Fn, fs *FactSet) bool {
@@ -1259,11 +1309,13 @@ func runC33(c *Ctx) {
 			}},
 			factReq{"no wildcard", func(g *Fn, fs *FactSet) bool {
 				return fs.Has(func(fa *Fact) bool {
-					if fa.Kind != FFalse || !g.IsCall(fa.Call, "strings.Contains") {
+					// strings.Contains(x, "*"), ContainsRune(x, '*'), ContainsAny(x, "*") or
+					// IndexByte/IndexRune/Index(...) >= 0 are the same test
+					if fa.Kind != FFalse || !g.IsCall(fa.Call, "strings.Contains", "strings.ContainsRune", "strings.ContainsAny") {
 						return false
 					}
 					v, _ := g.ConstVal(fa.Call.Args[1])
-					return v == "\"*\""
+					return v == "\"*\"" || v == "42"
 				})
 			}},
 			factReq{"not an IP literal", func(g *Fn, fs *FactSet) bool {
